@@ -32,6 +32,13 @@ partial def readVD : Sexp → Option VD
       | .list (.atom "alt" :: vs) => do pure (VDList.ofList (← vs.mapM readVD))
       | _ => none
     pure (.dynView (← g.toNat?) (VDAlts.ofList alts))
+  -- an input-less dynamic region: the model treats it as a dynamic view over a signal that the case
+  -- never writes (the harness guarantees that), which has the same markers and never re-renders
+  | .list (.atom "dview0" :: .atom g :: alts) => do
+    let alts ← alts.mapM fun
+      | .list (.atom "alt" :: vs) => do pure (VDList.ofList (← vs.mapM readVD))
+      | _ => none
+    pure (.dynView (← g.toNat?) (VDAlts.ofList alts))
   | .list (.atom "show" :: .atom g :: cs) => do pure (.show (← g.toNat?) (VDList.ofList (← cs.mapM readVD)))
   | .list (.atom "frag" :: cs) => do pure (.frag (VDList.ofList (← cs.mapM readVD)))
   | _ => none
